@@ -22,6 +22,14 @@ def cases(draw, tier):
         cur = posixpath.join(cur, DIRNAMES[draw(st.integers(0, len(DIRNAMES) - 1))] + str(i))
         chain.append(cur)
     dirs = [""] + chain
+    if depth >= 2 and draw(st.integers(0, 99)) < 50:
+        # a second branch whose directories have the SAME names at the same depths (src/lib/.. vs test/lib/..):
+        # commands and redo-whichdo issued from there reach the target by crossing from one branch into the other
+        cur = "zs"
+        dirs.append(cur)
+        for comp in chain[-1].split("/")[1:]:
+            cur = posixpath.join(cur, comp)
+            dirs.append(cur)
     ndots = draw(st.integers(0, 3))
     name = ".".join(PIECES[draw(st.integers(0, len(PIECES) - 1))] for _ in range(ndots + 1))
     tdir = chain[-1]
@@ -111,11 +119,15 @@ class Runner(hist.HistoryRunner):
                 self.do_cmd(kind, ts, cwd)
                 return
             sp = spell(t, cwd, style, dirs) or os.path.join(disk.root, t)
+            if cwd.startswith("zs"):
+                self.out.events["c13:requested-from-a-sibling-branch-with-equal-directory-names"] += 1
             self.spelling = sp
             self.do_cmd_spelled(kind, t, sp, cwd)
         elif k == "whichdo":
             cwd, style = op[1], op[2]
             sp = spell(t, cwd, style, dirs) or os.path.join(disk.root, t)
+            if cwd.startswith("zs"):
+                self.out.events["c13:whichdo-from-a-sibling-branch-with-equal-directory-names"] += 1
             q = runner.run_cmd(disk, ["redo-whichdo", sp], cwd=cwd, env_extra=self.env)
             self.out.commands += 1
             lines = [l for l in q.out.decode("utf-8", "replace").split("\n") if l]
